@@ -125,7 +125,7 @@ class Compiler:
 
     def compile(self, node: Program) -> CompiledFunction:
         """Compile a program to bytecode."""
-        body = node.body
+        body = self._hoisted(node.body)
 
         # Compile all statements except the last one
         for stmt in body[:-1] if body else []:
@@ -149,6 +149,18 @@ class Compiler:
             num_locals=len(self.locals),
             source_map=self.source_map,
         )
+
+    @staticmethod
+    def _hoisted(body: List[Node]) -> List[Node]:
+        """The statements of a program or function body in the order they take
+        effect: function declarations are initialised on entry, before any other
+        statement runs, so a function can be called above its declaration."""
+        declarations = [s for s in body if isinstance(s, FunctionDeclaration)]
+        if not declarations:
+            return body
+        return declarations + [
+            s for s in body if not isinstance(s, FunctionDeclaration)
+        ]
 
     # Opcodes that use 16-bit arguments (jumps and jump-like)
     _JUMP_OPCODES = frozenset(
@@ -1149,7 +1161,7 @@ class Compiler:
             self._emit(OpCode.RETURN)
         else:
             # Block body: compile statements
-            for stmt in node.body.body:
+            for stmt in self._hoisted(node.body.body):
                 self._compile_statement(stmt)
             # Implicit return undefined
             self._emit(OpCode.RETURN_UNDEFINED)
@@ -1256,7 +1268,7 @@ class Compiler:
         self._outer_locals.pop()
 
         # Compile function body
-        for stmt in body.body:
+        for stmt in self._hoisted(body.body):
             self._compile_statement(stmt)
 
         # Implicit return undefined
